@@ -126,7 +126,12 @@ class Sym:
             return self.operand(rv["op"], depth, stack)
         if k == "BinaryOp":
             op = rv["op"].replace("WithOverflow", "").replace("Unchecked", "")
-            return "%s(%s,%s)" % (op, self.operand(rv["l"], depth, stack), self.operand(rv["r"], depth, stack))
+            l, r = self.operand(rv["l"], depth, stack), self.operand(rv["r"], depth, stack)
+            if CANON and op in ("Add", "Mul", "BitAnd", "BitOr", "BitXor", "Eq", "Ne"):
+                # commutative: a numeric constant goes to the right, otherwise the operands are ordered (`n + self.head` == `self.head + n`)
+                if (_isnum(l) and not _isnum(r)) or (not _isnum(l) and not _isnum(r) and r < l):
+                    l, r = r, l
+            return "%s(%s,%s)" % (op, l, r)
         if k == "UnaryOp":
             return "%s(%s)" % (rv["op"], self.operand(rv["e"], depth, stack))
         if k == "Discriminant":
@@ -258,7 +263,85 @@ def site_operands(sym, t):
     return {}
 
 
+CANON = True      # canonical comparison guards (see canon_guard)
+
+
+def _split(e):
+    """`Op(a,b)` -> (Op, [a, b]) at the top level, else None"""
+    import re
+    m = re.match(r"^([A-Za-z]+)\((.*)\)$", e)
+    if not m:
+        return None
+    body, args, depth, cur = m.group(2), [], 0, ""
+    for ch in body:
+        if ch in "([{":
+            depth += 1
+        elif ch in ")]}":
+            depth -= 1
+            if depth < 0:
+                return None
+        if ch == "," and depth == 0:
+            args.append(cur)
+            cur = ""
+        else:
+            cur += ch
+    args.append(cur)
+    return m.group(1), args
+
+
+def _isnum(x):
+    return x.lstrip("-").isdigit()
+
+
+def canon_guard(e, val):
+    """one spelling per comparison, so that `a < b` / `b > a` / `!(a >= b)` / `if !(..)` with exchanged branches are the same forced guard:
+    Not(E)=v -> E=!v;  Ne -> Eq negated;  Gt(a,b) -> Lt(b,a);  Ge(a,b) -> Le(b,a);  a numeric constant goes to the right
+    (Lt(c,x)=v -> Le(x,c)=!v, Le(c,x)=v -> Lt(x,c)=!v);  between two non-constants only Lt is used (Le(a,b)=v -> Lt(b,a)=!v);
+    Eq has its operands ordered."""
+    if val not in ("true", "false"):
+        return e, val
+    neg = {"true": "false", "false": "true"}
+    for _ in range(8):
+        sp = _split(e)
+        if not sp:
+            break
+        op, a = sp
+        if op == "Not" and len(a) == 1:
+            e, val = a[0], neg[val]
+            continue
+        if len(a) != 2:
+            break
+        l, r = a
+        if op == "Ne":
+            e, val = "Eq(%s,%s)" % (l, r), neg[val]
+            continue
+        if op == "Gt":
+            e = "Lt(%s,%s)" % (r, l)
+            continue
+        if op == "Ge":
+            e = "Le(%s,%s)" % (r, l)
+            continue
+        if op == "Eq":
+            if (_isnum(l) and not _isnum(r)) or (not _isnum(l) and not _isnum(r) and r < l):
+                e = "Eq(%s,%s)" % (r, l)
+            break
+        if op in ("Lt", "Le"):
+            if _isnum(l) and not _isnum(r):
+                e, val = "%s(%s,%s)" % ("Le" if op == "Lt" else "Lt", r, l), neg[val]
+            elif not _isnum(r) and op == "Le":
+                e, val = "Lt(%s,%s)" % (r, l), neg[val]
+            break
+        break
+    return e, val
+
+
 def normalise_guard(e, val):
+    if CANON:
+        e, val = canon_guard(e, val)
+    return _normalise_len(e, val)
+
+
+def _normalise_len(e, val):
     """`x.len() == 0`, `x.len() != 0`, `x.len() > 0`, `0 < x.len()` are the same test as `x.is_empty()`"""
     import re
     m = re.match(r"^(Eq|Ne|Gt|Lt|Ge|Le)\(len\((.*)\),0\)$", e)
@@ -272,6 +355,9 @@ def normalise_guard(e, val):
         op, x, v = m.group(1), m.group(2), val == "true"
         empty = v if op == "Lt" else not v
         return "is_empty(%s)" % x, "true" if empty else "false"
+    m = re.match(r"^Le\(len\((.*)\),0\)$", e)
+    if m and val in ("true", "false"):
+        return "is_empty(%s)" % m.group(1), val
     m = re.match(r"^Lt\(0,len\((.*)\)\)$", e)
     if m and val in ("true", "false"):
         return "is_empty(%s)" % m.group(1), "false" if val == "true" else "true"
